@@ -46,6 +46,8 @@ pub struct Obs {
     /// hub delegations per validator
     pub delegations: BTreeMap<String, u128>,
     pub delegated: u128,
+    /// bSei + stSei pool totals as *stored* by the hub (raw storage, not the re-synced State query view)
+    pub stored_books: u128,
     /// registered validators as stored by the registry (sorted by address)
     pub registry: Vec<String>,
     /// the registry's GetValidatorsForDelegation answer, in the order given
@@ -168,6 +170,16 @@ pub fn reward_obs(w: &World, who: &[String]) -> RewardObs {
     }
     RewardObs { state: reward_state(w), holders, accrued, listed }
 }
+/// The hub's stored pool totals (what later transactions and sibling contracts start from).
+pub fn hub_stored_books(w: &World) -> u128 {
+    match w.contracts.get(HUB) {
+        Some((_, store)) => match basset_sei_hub::state::STATE.may_load(store) {
+            Ok(Some(st)) => st.total_bond_bsei_amount.u128() + st.total_bond_stsei_amount.u128(),
+            _ => 0,
+        },
+        None => 0,
+    }
+}
 /// The registered validators as *stored* by the registry (read from its storage, not through its query).
 pub fn registry_stored(w: &World) -> Vec<String> {
     let store = &w.contracts.get(REG).unwrap_or_else(|| qfail("registry storage", "no registry".into())).1;
@@ -229,6 +241,7 @@ pub fn observe(w: &World, cfg: &Cfg) -> Obs {
         bank,
         delegations,
         delegated,
+        stored_books: hub_stored_books(w),
         registry: registry_stored(w),
         registry_query: registry_query(w),
     }
